@@ -2,21 +2,21 @@ CONSTANTS
   Procs = {1}
   Clients = {"c1"}
   Forms = {"v4"}
-  CCs = {"a", "b"}
-  SVs = {"bare"}
+  CCs = {}
+  SVs = {}
   Shorts = {}
-  Protos = {"tcp"}
-  Questions = {"fresh"}
+  Protos = {"udp"}
+  Questions = {"q1", "al1"}
   Entries = {"msg", "wire"}
   Exempts = {}
   Odds = {FALSE}
-  Burst = 1
-  StoreCap = 1
-  EntryBurst = 0
+  Burst = 3
+  StoreCap = 2
+  EntryBurst = 1
   BigQs = {}
-  MaxOps = 2
+  MaxOps = 3
   MaxPend = 1
-  MaxAge = 1
+  MaxAge = 2
   TickSet = {}
   CleanSet = {}
   Atomic = "call"
@@ -26,12 +26,10 @@ CONSTANTS
   ReuseEvicted = FALSE
   SharedKey = FALSE
   ChargeBeforeFit = FALSE
-  LimitInternal = FALSE
-  Aliases = {}
+  LimitInternal = TRUE
+  Aliases = {"al1"}
   AliasTarget = "q1"
-  WireSkipsStore <- MutOn
 SPECIFICATION Spec
-INVARIANTS TypeOK OneChargePerQuestion DropIsSilent ClientWithinBudget NoSharedBucket RememberedIsOwn ExemptNeverLimited InternalNeverLimited
-  ReplyCookieIsOwn AnswerCarriesCookie BadCookieSound VerifiedIsFree HandoffOnlyInline SameOutcomeAcrossEntries CookieRemembered
+INVARIANTS InternalNeverLimited
 PROPERTIES DropLeavesNoTrace EvictionOnlyResets BucketIsolation ExemptUntouched TokensNeverRefillWithoutTime
 CHECK_DEADLOCK FALSE
